@@ -422,7 +422,7 @@ void LogsumHmmLikelihood::computeDForward_() const
       num[kp] = logLikelihood_[iip + kp];
     }
 
-    num -= num[VectorTools::whichMax(num)];
+    num -= VectorTools::max(num); // by value: 'num -= num[k]' stops shifting once num[k] itself is 0
 
     if (i < nextBrkPt)
     {
@@ -458,7 +458,7 @@ void LogsumHmmLikelihood::computeDForward_() const
     num[kp] = logLikelihood_[nbStates_ * (nbSites_ - 1) + kp];
   }
 
-  num -= num[VectorTools::whichMax(num)];
+  num -= VectorTools::max(num);
 
   partialDLogLikelihoods_.push_back(VectorTools::sumExp(num, dLogLikelihood_[nbSites_ - 1]) / VectorTools::sumExp(num));
 
@@ -532,7 +532,7 @@ void LogsumHmmLikelihood::computeD2Forward_() const
       num[kp] = logLikelihood_[iip + kp];
     }
 
-    num -= num[VectorTools::whichMax(num)];
+    num -= VectorTools::max(num); // by value: 'num -= num[k]' stops shifting once num[k] itself is 0
 
     if (i < nextBrkPt)
     {
@@ -577,7 +577,7 @@ void LogsumHmmLikelihood::computeD2Forward_() const
     num[kp] = logLikelihood_[nbStates_ * (nbSites_ - 1) + kp];
   }
 
-  num -= num[VectorTools::whichMax(num)];
+  num -= VectorTools::max(num);
 
   double den = VectorTools::sumExp(num);
 
